@@ -309,6 +309,24 @@ func crafted() []string {
 	for _, usr := range []string{"doc:a#viewer", "group:a#member", "doc:a#owner", "folder:a#viewer", "group:a#owner"} {
 		mk(m4, t4, fga.Req{Obj: "doc:a", Rel: "viewer", User: usr})
 	}
+	// weight-two fast path: the right stream (stored order) is not sorted, two candidates on each side — exercises the
+	// ordering-based pruning of Weight2.execute (must stay disabled for an unordered iterator)
+	m6 := &fga.Model{Types: []*fga.TypeDef{{Name: "user"},
+		{Name: "group", Rels: []*fga.RelDef{{Name: "member", Rewrite: this(), Restrs: []fga.Restr{u}}}},
+		{Name: "folder", Rels: []*fga.RelDef{{Name: "viewer", Rewrite: this(), Restrs: []fga.Restr{u}}}},
+		{Name: "doc", Rels: []*fga.RelDef{
+			{Name: "parent", Rewrite: this(), Restrs: []fga.Restr{{Typ: "folder"}}},
+			{Name: "viewer", Rewrite: this(), Restrs: []fga.Restr{{Typ: "group", Rel: "member"}}},
+			{Name: "can", Rewrite: ttu("parent", "viewer")},
+		}}}}
+	t6 := []fga.Tuple{
+		{Obj: "doc:a", Rel: "viewer", User: "group:c#member"}, {Obj: "doc:a", Rel: "viewer", User: "group:b#member"},
+		{Obj: "group:a", Rel: "member", User: "user:x"}, {Obj: "group:b", Rel: "member", User: "user:x"},
+		{Obj: "doc:a", Rel: "parent", User: "folder:c"}, {Obj: "doc:a", Rel: "parent", User: "folder:b"},
+		{Obj: "folder:a", Rel: "viewer", User: "user:x"}, {Obj: "folder:b", Rel: "viewer", User: "user:x"},
+	}
+	mk(m6, t6, fga.Req{Obj: "doc:a", Rel: "viewer", User: "user:x"})
+	mk(m6, t6, fga.Req{Obj: "doc:a", Rel: "can", User: "user:x"})
 	// AND inside a tuple cycle: the weighted graph cannot be built -> fallback to the default engine
 	m5 := &fga.Model{Types: []*fga.TypeDef{{Name: "user"},
 		{Name: "group", Rels: []*fga.RelDef{
